@@ -112,12 +112,17 @@ def h_roundtrip(ctx, fmt, chroms, auto=False):
         probes = [ctx.int(f"p{i}", 0, 10**6) for i in range(len(rows))]
         recs = [r + (vals[i], probes[i]) for i, r in enumerate(recs)]
     ga = GA.from_rows(recs, columns=cols)
+    before = [tuple(r) for r in ga.data.itertuples(index=False)]
     try:
         text1 = text_of(ga, fmt)
+        text1b = text_of(ga, fmt)
         back = tabio.read(io.StringIO(text1), "auto" if auto else fmt)
     except Exception as exc:
         ctx.claim(False, f"{fmt} write/read raised {type(exc).__name__}", info=str(exc)[:200])
         return
+    ctx.claim(text1 == text1b, f"{fmt}: writing the same table twice produces identical bytes")
+    after = [tuple(r) for r in ga.data.itertuples(index=False)]
+    ctx.claim(len(before) == len(after) and all(len(a) == len(b) and all((x is y) or bool(x == y) for x, y in zip(a, b)) for a, b in zip(before, after)), f"{fmt}: writing leaves the table itself unchanged")
     got = []
     for r in back.data.itertuples(index=False):
         g = getattr(r, "gene", "-") if genes else "-"
@@ -246,7 +251,8 @@ def _build_grammars():
     return {
         "bed3": (cat(CH, T, NUM, T, NUM, NL), "bed"),
         "bed4": (cat(CH, T, NUM, T, NUM, T, NAME, NL), "bed"),
-        "interval": (cat(CH, T, NUM, T, NUM, T, z3.Union(R._lit("+"), R._lit("-")), T, NAME, NL), "interval"),
+        # write_interval emits the table's strand column: '+', '-', or '.' for tables read from BED
+        "interval": (cat(CH, T, NUM, T, NUM, T, z3.Union(R._lit("+"), R._lit("-"), R._lit(".")), T, NAME, NL), "interval"),
         "text": (cat(CH, R._lit(":"), NUM, R._lit("-"), NUM, NL), "text"),
         "tab": (cat(z3.Re(z3.StringVal("chromosome\tstart\tend")), z3.Star(cat(T, z3.Plus(R.WORD))), NL), "tab"),
         "gff": (cat(CH, T, NAME, T, z3.Plus(R.WORD), T, NUM, T, NUM, T, NAME, T, z3.Union(*[R._lit(c) for c in ".?+-"]), T, z3.Union(*[R._lit(c) for c in "012."]), T, z3.Star(R.NOT_NL), NL), "gff"),
